@@ -437,6 +437,7 @@ impl JsObject {
         // NOTE(HalidOdat): For object's that are not callable we implement a special __call__ internal method
         //                  that throws on call.
 
+        let stack_len = context.vm.stack.len();
         context.vm.stack.push(this.clone()); // this
         context.vm.stack.push(self.clone()); // func
         let argument_count = args.len();
@@ -444,7 +445,15 @@ impl JsObject {
 
         // 3. Return ? F.[[Call]](V, argumentsList).
         let frame_index = context.vm.frames.len();
-        if self.__call__(argument_count).resolve(context)? {
+        let resolved = match self.__call__(argument_count).resolve(context) {
+            Ok(resolved) => resolved,
+            Err(err) => {
+                // The callee did not consume the calling convention values.
+                context.vm.stack.truncate(stack_len);
+                return Err(err);
+            }
+        };
+        if resolved {
             return Ok(context.vm.stack.pop());
         }
 
@@ -486,6 +495,7 @@ impl JsObject {
         // 1. If newTarget is not present, set newTarget to F.
         let new_target = new_target.unwrap_or(self);
 
+        let stack_len = context.vm.stack.len();
         context.vm.stack.push(JsValue::undefined());
         context.vm.stack.push(self.clone()); // func
         let argument_count = args.len();
@@ -496,7 +506,15 @@ impl JsObject {
         // 3. Return ? F.[[Construct]](argumentsList, newTarget).
         let frame_index = context.vm.frames.len();
 
-        if self.__construct__(argument_count).resolve(context)? {
+        let resolved = match self.__construct__(argument_count).resolve(context) {
+            Ok(resolved) => resolved,
+            Err(err) => {
+                // The callee did not consume the calling convention values.
+                context.vm.stack.truncate(stack_len);
+                return Err(err);
+            }
+        };
+        if resolved {
             let result = context.vm.stack.pop();
             return Ok(result
                 .as_object()
